@@ -10,6 +10,7 @@ VARIABLES v_pos, v_cmap, v_blocks
 vars == <<v_pos, v_cmap, v_blocks>>
 
 Chk(c, m) == IF c THEN TRUE ELSE PrintT(<<"MISMATCH", m>>) /\ FALSE
+Sbn(e) == IF "sbn" \in DOMAIN e THEN e.sbn ELSE 0      \* the block's number inside its object (route "obj": second block)
 
 ColOf(syms, j) == [i \in 1..Len(syms) |-> syms[i][j]]
 
@@ -40,10 +41,10 @@ BlockOk(e) ==
   /\ Chk(e.res = "ok", <<"encoder construction failed", K, e.route, e.res>>)
   /\ e.res = "ok"
   /\ Chk(Len(e.data) = K * T /\ Len(e.src) = K, <<"wrong number of source packets", K, Len(e.src)>>)
-  /\ \A i \in 1..K : Chk(e.src[i][1] = 0 /\ e.src[i][2] = i - 1 /\ Len(e.src[i][3]) = T
+  /\ \A i \in 1..K : Chk(e.src[i][1] = Sbn(e) /\ e.src[i][2] = i - 1 /\ Len(e.src[i][3]) = T
                          /\ \A j \in 1..T : e.src[i][3][j] = e.data[(i-1)*T + j],
                          <<"source packet differs from source symbol", K, i - 1>>)
-  /\ \A n \in 1..Len(e.rep) : Chk(e.rep[n][1] = 0 /\ e.rep[n][2] >= K /\ e.rep[n][2] < 16777216
+  /\ \A n \in 1..Len(e.rep) : Chk(e.rep[n][1] = Sbn(e) /\ e.rep[n][2] >= K /\ e.rep[n][2] < 16777216
                                    /\ Len(e.rep[n][3]) = T, <<"malformed repair packet", K, n>>)
   /\ \A j \in 1..T : ColumnOk(e, K, T, pr, j)
 
